@@ -26,6 +26,7 @@ CONSTANTS
     Comp,        \* all components that can exist (strings "d1.a"); Owner[c] its dataset
     Owner,
     Initial,     \* components every dataset starts with (subset of Comp)
+    DependsOn,   \* DependsOn[c]: the attributes of the same dataset an internal derived attribute c is computed from ({} for stored ones)
     InitialColl, \* datasets in the collection at the start
     LinkMenu,    \* set of link records
     MaxDelay,
@@ -65,15 +66,19 @@ Relax(D, es, k) ==
     IF k = 0 THEN D
     ELSE Relax(TLCEval([c \in Comp |-> Min({D[c]} \cup {Cost(e, D) : e \in {x \in es : x.to = c}})]), es, k - 1)
 
-DepthFrom(own, ls) == Relax(TLCEval([c \in Comp |-> IF c \in own THEN 0 ELSE Inf]), TLCEval(Edges(ls)), Cardinality(Comp))
+(* the defining link of a derived attribute is a link like any other: whoever reaches its inputs reaches the attribute *)
+DefEdges(cs) == {[id |-> "def:" \o c, dir |-> "fwd", from |-> <<CHOOSE x \in DependsOn[c] : TRUE>>, to |-> c] :
+                    c \in {x \in cs : DependsOn[x] # {} /\ DependsOn[x] \subseteq cs}}
+AllEdges(ls, cs) == Edges(ls) \cup DefEdges(cs)
+DepthFrom(own, ls, cs) == Relax(TLCEval([c \in Comp |-> IF c \in own THEN 0 ELSE Inf]), TLCEval(AllEdges(ls, cs)), Cardinality(Comp))
 
-Own(d, cs) == {c \in cs : Owner[c] = d}
+Own(d, cs) == {c \in cs : Owner[c] = d /\ DependsOn[c] = {}}        \* stored attributes; derived ones are one (defining) link away
 
 ExpFor(d, cs, ls) ==
-    LET D == TLCEval(DepthFrom(Own(d, cs), ls)) IN
+    LET D == TLCEval(DepthFrom(Own(d, cs), ls, cs)) IN
     TLCEval([c \in Comp |-> [depth |-> D[c],
                      choices |-> IF D[c] = 0 \/ D[c] = Inf THEN {}
-                                 ELSE {<<e.id, e.dir>> : e \in {x \in Edges(ls) : x.to = c /\ Cost(x, D) = D[c]}}]])
+                                 ELSE {<<e.id, e.dir>> : e \in {x \in AllEdges(ls, cs) : x.to = c /\ Cost(x, D) = D[c]}}]])
 
 Exp(co, cs, ls) == TLCEval([d \in Dataset |-> IF d \in co THEN ExpFor(d, cs, ls) ELSE [c \in Comp |-> [depth |-> Inf, choices |-> {}]]])
 
@@ -110,16 +115,20 @@ RemoveData(d) ==
 
 AddComponent(c) ==
     /\ c \notin comps
+    /\ DependsOn[c] \subseteq comps
     /\ comps' = comps \cup {c}
     /\ UNCHANGED <<coll, links, delay>>
     /\ Finish(coll, comps', links)
     /\ act' = A("AddComponent", Owner[c], c, "-", {})
 
-(* removing a component removes every link that mentions it *)
+(* removing a component removes the derived attributes of the same dataset that are computed from it (transitively) and every
+   link that mentions any of the removed attributes *)
+RECURSIVE Gone(_, _)
+Gone(R, cs) == LET T == R \cup {d \in cs : DependsOn[d] \cap R # {}} IN IF T = R THEN R ELSE Gone(T, cs)
 RemoveComponent(c) ==
     /\ c \in comps
-    /\ comps' = comps \ {c}
-    /\ links' = {l \in links : c \notin Mentions(l)}
+    /\ comps' = comps \ Gone({c}, comps)
+    /\ links' = {l \in links : Mentions(l) \cap Gone({c}, comps) = {}}
     /\ UNCHANGED <<coll, delay>>
     /\ Finish(coll, comps', links')
     /\ act' = A("RemoveComponent", Owner[c], c, "-", {})
@@ -190,7 +199,7 @@ Inv_ChoicesSound ==
         (exp[d][c].depth \notin {0, Inf}) =>
             /\ exp[d][c].choices # {}
             /\ \A ch \in exp[d][c].choices :
-                 \E e \in Edges(links) : e.id = ch[1] /\ e.dir = ch[2] /\ e.to = c /\
+                 \E e \in AllEdges(links, comps) : e.id = ch[1] /\ e.dir = ch[2] /\ e.to = c /\
                      \A f \in Range(e.from) : exp[d][f].depth < exp[d][c].depth
 
 \* witnesses (expected to be violated)
